@@ -54,8 +54,14 @@ QUse(p, n) == [k |-> "quse", p |-> p, n |-> n]
 LetS(n) == [k |-> "let", n |-> n]
 Scope(kind, b, body) == [k |-> "scope", kind |-> kind, b |-> b, body |-> body]
 ProbeFn(name, param, body) == [name |-> name, param |-> param, body |-> body]
+\* dk: what the names in `decls` declare: functions ("fn") or enums ("enum": `type n = | P<file> | Q<file>`)
 FileRec(name, imports, decls, fns, body, declsLast) ==
-  [name |-> name, imports |-> imports, decls |-> decls, fns |-> fns, body |-> body, declsLast |-> declsLast]
+  [name |-> name, imports |-> imports, decls |-> decls, fns |-> fns, body |-> body, declsLast |-> declsLast, dk |-> "fn"]
+FileRecT(name, imports, decls, body, declsLast) ==
+  [name |-> name, imports |-> imports, decls |-> decls, fns |-> <<>>, body |-> body, declsLast |-> declsLast, dk |-> "enum"]
+\* a use of the enum named n: a match on one of its variants with a qualified variant pattern (`n.Pf` as an expression and
+\* as a pattern); it is only written where the name resolves to exactly one enum
+TUse(n) == [k |-> "tuse", n |-> n]
 
 ScopeKinds == {"block", "if", "while", "for", "match", "match2"}
 PatternKinds == {"for", "match"}           \* the binder is a pattern variable guarding the whole body
@@ -170,6 +176,14 @@ Walk1(C, s, st) ==
                             !.undet = IF v = "q-clash" THEN @ \cup {ppos, fpos} ELSE @,
                             !.out = IF v = "q-fn" THEN @ \o OutOf(C, Fn(r.file, s.n)) ELSE @,
                             !.ntaint = IF tainted THEN @ + 1 ELSE @]
+    [] s.k = "tuse" ->
+        LET r == Resolve(C, st.env, s.n) IN
+        IF r.t # "fn" THEN st
+        ELSE LET v == s.n \o ".P" \o BaseOf(r.file)
+                 a == Put(st, "match " \o v \o " {")
+                 b == Put(a, v \o " -> println(\"" \o r.file \o "." \o s.n \o "\")")
+                 c == Put(Put(b, "_ -> println(\"other\")"), "}")
+             IN [Tag(c, "enum") EXCEPT !.out = @ \o r.file \o "." \o s.n \o "\n"]
     [] s.k = "let" ->
         LET label == "L" \o LineNo(st) \o "." \o s.n
         IN Bind(Put(st, "let " \o s.n \o " = " \o Lam(label)), s.n, label)
@@ -222,7 +236,9 @@ WalkImports(C, imps, st) ==
 WalkDecls(C, ds, st) ==
   IF ds = <<>> THEN st
   ELSE WalkDecls(C, Tail(ds),
-         Put(st, "fn " \o ds[1] \o "(z: int) { println(\"" \o C.F.name \o "." \o ds[1] \o "\") }"))
+         IF C.F.dk = "enum"
+         THEN Put(st, "type " \o ds[1] \o " = | P" \o BaseOf(C.F.name) \o " | Q" \o BaseOf(C.F.name))
+         ELSE Put(st, "fn " \o ds[1] \o "(z: int) { println(\"" \o C.F.name \o "." \o ds[1] \o "\") }"))
 \* a probe function: its parameter guards the body; what a call of it prints is remembered in declout
 WalkFns(C, fns, st) ==
   IF fns = <<>> THEN [st |-> st, declout |-> C.declout]
